@@ -31,27 +31,36 @@ def nodeRankOk (s : SchemaD) (d : Doc) (ρ : Nat → Nat) : Node → Bool
 /-- the check -/
 def rankOkB (s : SchemaD) (d : Doc) (ρ : Nat → Nat) : Bool := (nodes d).all (nodeRankOk s d ρ)
 
-/-! a proposal for the ranks (longest nesting / spread path, computed with fuel) -/
+/-! a proposal for the ranks: longest nesting / spread path, by ROUNDS over a table (each round linear in the document;
+    following the spreads recursively is exponential on cyclic documents). On a cyclic document the table never settles
+    and the proposal fails the check, as it must. -/
 
 mutual
-def rankSel (d : Doc) : Nat → Sel → Nat
-  | 0, _ => 0
-  | n + 1, .field _ _ _ _ hasSub _ sub => if hasSub then rankSels d n sub + 2 else 2
-  | n + 1, .spread name _ =>
+def rankSel (d : Doc) (tbl : List (Nat × Nat)) : Sel → Nat
+  | .field _ _ _ _ hasSub ssid _ => if hasSub then rankOf tbl ssid + 2 else 2
+  | .spread name _ =>
     match AL.get? (fragTable d) name with
-    | some (_, _, fsels) => rankSels d n fsels + 2
+    | some (_, fid, _) => rankOf tbl fid + 2
     | none => 2
-  | n + 1, .inline _ _ _ sub => rankSels d n sub
-def rankSels (d : Doc) : Nat → List Sel → Nat
-  | 0, _ => 2
-  | _ + 1, [] => 2
-  | n + 1, x :: xs => max (rankSel d n x) (rankSels d n xs)
+  | .inline _ _ _ sub => rankSels d tbl sub
+def rankSels (d : Doc) (tbl : List (Nat × Nat)) : List Sel → Nat
+  | [] => 2
+  | x :: xs => max (rankSel d tbl x) (rankSels d tbl xs)
 end
 
-def computeRanks (d : Doc) : List (Nat × Nat) :=
+def rankRound (d : Doc) (tbl : List (Nat × Nat)) : List (Nat × Nat) :=
   (nodes d).filterMap fun
-    | .selectionSet i sels => some (i, rankSels d (2 * (nodes d).length + 2) sels)
+    | .selectionSet i sels => some (i, rankSels d tbl sels)
     | _ => none
+
+def rankRounds (d : Doc) : Nat → List (Nat × Nat) → List (Nat × Nat)
+  | 0, tbl => tbl
+  | n + 1, tbl => rankRounds d n (rankRound d tbl)
+
+/-- ranks above `overlapFuel / 2` fail the check anyway: that many rounds (at most one per selection set) suffice -/
+def computeRanks (d : Doc) : List (Nat × Nat) :=
+  rankRounds d (min ((selSetCount d) + 1) (overlapFuel / 2 + 2)) []
+where selSetCount (d : Doc) : Nat := ((nodes d).filter fun | .selectionSet _ _ => true | _ => false).length
 
 end PyGql.Validate
 
